@@ -944,6 +944,38 @@ func main() {
 			cases = cases[:0]
 		}
 	}
+	// read-option LISTS (order, nil after non-nil, WithReadPaths then WithReadMask, unrelated options)
+	otie := res.Tie("read-options", "K1",
+		"lists of 0-4 resource.ReadOption values (WithReadMask incl. nil and empty masks, WithReadPaths incl. no paths and paths fieldmaskpb.New rejects, WithUpdatesOnly, WithBackpressure, WithInclude, EmptyReadOption) in every order at ComputeReadConfig (configured request + ReadRequest.FilterClone + ResponseFilter().FilterClone), Value.Get, Collection.Get, Collection.List, the seed of Value.Pull and Collection.PullID, and lists of masks.WithFieldMask/WithFieldMaskPaths at masks.NewResponseFilter, against the Lean fold (ScVerif/C06/Opts.lean: computeReadConfig / readWith / newResponseFilter); a fixed family of list shapes (none, nil, mask, mask+nil, nil+mask, mask+mask, paths+nil, mask+paths, parent+child) runs first at every site; non-trivial = at least two options; distinct by (site, options, message)")
+	omon := res.Monitor("read-option-lists",
+		"for every option list: the read returns the independent projection of the stored message onto the mask of the RIGHT-MOST read-mask option (WithReadMask/WithReadPaths; nil or no such option = everything, no paths = nothing) — so a later WithReadMask(nil) switches an earlier mask off and the last of two masks wins; options that are not read-mask options do not change it; the last WithInclude decides what List returns; the stored message is unchanged; no panic except WithReadPaths with a path that is not part of the message")
+	runOptionCases(seededOptionCases(), otie, omon, drv)
+	var ocs []ocase
+	for i, n := 0, f.N(1500, 30000); i < n; i++ {
+		ocs = append(ocs, genOptionCase(g, optionSites[i%len(optionSites)]))
+		if len(ocs) == 1000 || i == n-1 {
+			runOptionCases(ocs, otie, omon, drv)
+			ocs = ocs[:0]
+		}
+	}
+	// trait-level readers that compose a response and project it
+	ctie := res.Tie("composed-readers", "K1",
+		"every trait-level reader that composes its response and then projects it, or pages over stored items and projects the page (openclosepb Model/ModelServer GetPositions and Model.PullPositions with derived presets; ListModes, ListHails, ListPublications, ListConsumables, ListInventory, ListChildren, ListBookings, ListWasteRecords), on freshly generated populated instances: masked read vs the Lean filter of the UNMASKED read of the same instance; masks: nil, empty, every single path of the item's path tree to depth 2 (through repeated messages too), parent+child in both orders, unknown paths, random 1-3 paths to depth 3; subscriptions: seed + 2-4 single stored changes, an event is due exactly when the projection changes; non-trivial = non-empty mask; distinct by (reader, instance seed, mask)")
+	cmon := res.Monitor("composed-read-semantics",
+		"for every trait-level reader and mask: each returned item / delivered value = independent projection of the corresponding unmasked item of the same instance; same number of items; the unmasked read after the masked read equals the one before (stored state not altered), messages returned by earlier reads do not change, repeating the masked read gives the same result; subscriptions deliver an event exactly when the projection of the current value changes, each equal to that projection; no panic for any mask")
+	runComposed(composedCases(g, f.N(12, 200), f.N(12, 120)), ctie, cmon, drv)
+	htie := res.Tie("shared-containers", "K1",
+		"a fresh TestAllTypes container whose repeated_foreign_message elements and default_foreign_message ARE 1-3 stored messages (the shape trait-level readers compose), with random owned fields, projected by ResponseFilter.Filter (in place) and FilterClone under masks that stay above, go below (nested, through the repeated field) or corrupt the shared fields: what the returned container shows AND every stored message afterwards, against the heap model (ScVerif/C06/Heap.lean: filterInPlace / filterCloneH); non-trivial = non-empty mask; distinct by (mode, mask, container, stored messages)")
+	var hcs []hcase
+	for i, n := 0, f.N(1200, 20000); i < n; i++ {
+		hcs = append(hcs, genHeapCase(g, []string{"clone", "inplace"}[i%2]))
+	}
+	runHeapCases(hcs, htie, cmon, drv)
+	if found, undriven := undrivenComposers(); len(undriven) > 0 {
+		res.Notes = append(res.Notes, fmt.Sprintf("composing call sites in pkg/trait (functions calling FilterClone/ResponseFilter/NewResponseFilter): %d found, not driven by a composed-readers row: %s", len(found), strings.Join(undriven, ", ")))
+	} else {
+		res.Notes = append(res.Notes, fmt.Sprintf("composing call sites in pkg/trait: %d functions found, all driven by a composed-readers row (%s)", len(found), strings.Join(found, ", ")))
+	}
 	if f.Thorough() {
 		runExhaustive(res, spec, mon, drv)
 	}
@@ -959,6 +991,29 @@ func replay(f lib.Flags) int {
 		lib.Fatal(err)
 	}
 	b, _ := json.Marshal(rp.Input)
+	var probe struct {
+		Options *[]string `json:"options"`
+		Reader  string    `json:"reader"`
+		Shared  bool      `json:"shared_container"`
+	}
+	_ = json.Unmarshal(b, &probe)
+	if probe.Reader != "" {
+		return replayComposed(b)
+	}
+	if probe.Shared {
+		var c hcase
+		if err := json.Unmarshal(b, &c); err != nil {
+			return 2
+		}
+		m := lib.NewMonitor("replay", "")
+		cont, heap, pmsg := c.run()
+		c.monitor(m, heap, pmsg)
+		fmt.Printf("replay shared container mode=%s mask=%s\n  stored before=%v\n  stored after =%v\n  returned=%s\n", c.Mode, c.Mask.Enc(), c.Texts, heap, cont)
+		return reportReplay(m)
+	}
+	if probe.Options != nil {
+		return replayOptions(b)
+	}
 	var c rcase
 	if err := json.Unmarshal(b, &c); err != nil || c.Root == "" {
 		fmt.Println("replay: no concrete input in file (", rp.Kind, rp.Broken, ")")
@@ -972,6 +1027,44 @@ func replay(f lib.Flags) int {
 	out := c.runCode()
 	c.monitor(m, out)
 	fmt.Printf("replay %s site=%s mask=%s\n  stored=%s\n  second=%s\n  unmasked events [%s]\n  -> %s\n", c.Root, c.Site, c.Mask.Enc(), c.MsgText, c.Msg2Text, out.Ref, out.text())
+	if len(m.Violations) > 0 {
+		for _, v := range m.Violations {
+			fmt.Printf("STILL FAILS %s: %s (expected %s, observed %s)\n", v.Signature, v.What, v.Expected, v.Observed)
+		}
+		return 1
+	}
+	fmt.Println("replay: property holds on this input now")
+	return 0
+}
+
+func replayOptions(b []byte) int {
+	var c ocase
+	if err := json.Unmarshal(b, &c); err != nil || c.Root == "" {
+		fmt.Println("replay: no concrete input in file")
+		return 2
+	}
+	m := lib.NewMonitor("replay", "")
+	out := c.runCode()
+	c.monitor(m, out)
+	eff, _ := c.effective()
+	fmt.Printf("replay %s site=%s options=%s (last read-mask option: %s)\n  stored=%s\n  -> %s\n", c.Root, c.Site, c.enc(), eff.Enc(), c.MsgText, out.text())
+	return reportReplay(m)
+}
+
+func replayComposed(b []byte) int {
+	var c ccase
+	if err := json.Unmarshal(b, &c); err != nil {
+		fmt.Println("replay: no concrete input in file")
+		return 2
+	}
+	m := lib.NewMonitor("replay", "")
+	out := c.run()
+	c.monitor(m, out)
+	fmt.Printf("replay reader=%s mode=%s instance-seed=%d mask=%s\n  unmasked=%s\n  masked  =%s\n", c.Reader, c.Mode, c.SetupSeed, c.Mask.Enc(), canonAll(out.Raw), canonAll(out.Got))
+	return reportReplay(m)
+}
+
+func reportReplay(m *lib.Monitor) int {
 	if len(m.Violations) > 0 {
 		for _, v := range m.Violations {
 			fmt.Printf("STILL FAILS %s: %s (expected %s, observed %s)\n", v.Signature, v.What, v.Expected, v.Observed)
